@@ -87,14 +87,20 @@ int sm9_sign_master_key_from_der(SM9_SIGN_MASTER_KEY *msk, const uint8_t **in, s
 	}
 	if (asn1_integer_from_der(&ks, &kslen, &d, &dlen) != 1
 		|| asn1_bit_octets_from_der(&Ppubs, &Ppubslen, &d, &dlen) != 1
-		|| asn1_check(kslen == 32) != 1
+		|| asn1_check(kslen >= 1 && kslen <= 32) != 1
 		|| asn1_check(Ppubslen == 1 + 32 * 4) != 1
 		|| asn1_length_is_zero(dlen) != 1) {
 		error_print();
 		return -1;
 	}
 	memset(msk, 0, sizeof(*msk));
-	sm9_z256_from_bytes(msk->ks, ks);
+	// the INTEGER is minimal: left-pad a key below 2^248 to 32 bytes
+	{
+		uint8_t buf[32] = {0};
+		memcpy(buf + 32 - kslen, ks, kslen);
+		sm9_z256_from_bytes(msk->ks, buf);
+		gmssl_secure_clear(buf, sizeof(buf));
+	}
 	if (sm9_z256_cmp(msk->ks, sm9_z256_order()) >= 0) {
 		error_print();
 		return -1;
@@ -238,7 +244,7 @@ int sm9_enc_master_key_from_der(SM9_ENC_MASTER_KEY *msk, const uint8_t **in, siz
 	}
 	if (asn1_integer_from_der(&ke, &kelen, &d, &dlen) != 1
 		|| asn1_bit_octets_from_der(&Ppube, &Ppubelen, &d, &dlen) != 1
-		|| asn1_check(kelen == 32) != 1
+		|| asn1_check(kelen >= 1 && kelen <= 32) != 1
 		|| asn1_check(Ppubelen == 1 + 32 * 2) != 1
 		|| asn1_length_is_zero(dlen) != 1) {
 		error_print();
@@ -246,7 +252,13 @@ int sm9_enc_master_key_from_der(SM9_ENC_MASTER_KEY *msk, const uint8_t **in, siz
 	}
 	memset(msk, 0, sizeof(*msk));
 
-	sm9_z256_from_bytes(msk->ke, ke);
+	// the INTEGER is minimal: left-pad a key below 2^248 to 32 bytes
+	{
+		uint8_t buf[32] = {0};
+		memcpy(buf + 32 - kelen, ke, kelen);
+		sm9_z256_from_bytes(msk->ke, buf);
+		gmssl_secure_clear(buf, sizeof(buf));
+	}
 	if (sm9_z256_cmp(msk->ke, sm9_z256_order()) >= 0) {
 		error_print();
 		return -1;
